@@ -381,6 +381,58 @@ pub fn run(tier: &str) -> Result<Report, String> {
             arg_specs.push(NetSpec { vars: vars.clone(), regs: regs.clone(), funcs: vec![Some(f), Some(Expr::Var(1))] });
         }
     }
+    // operator-shape sub-family: every pair of binary operators nested to the right and to the left (associativity
+    // matters for =>), negations outside / inside, plain and uninterpreted leaves; and same-operator chains of
+    // 4..33 operands in both nestings
+    {
+        let vars: Vec<String> = vec!["a".into(), "b".into(), "c".into()];
+        let regs: Vec<Reg> = [(0usize, 0usize), (1, 0), (2, 0), (1, 1), (2, 2)].iter().map(|(s, d)| Reg { src: *s, dst: *d, sign: Sign::Unk, observable: false }).collect();
+        let ce = |n: &str, args: Vec<Expr>| Expr::CallE(n.to_string(), args);
+        let leaf_sets: Vec<[Expr; 3]> = vec![
+            [Expr::Var(0), Expr::Var(1), Expr::Var(2)],
+            [Expr::Var(0), Expr::Var(1), ce("f", vec![Expr::Var(2)])],
+            [ce("f", vec![Expr::Var(0)]), Expr::Var(1), ce("f", vec![Expr::Var(2)])],
+        ];
+        let ops = ['&', '|', '^', '>', '='];
+        let mut fs: Vec<Expr> = vec![];
+        for [x, y, z] in &leaf_sets {
+            for op1 in ops {
+                for op2 in ops {
+                    for (neg_out, neg_in) in [(false, false), (true, false), (false, true), (true, true)] {
+                        for right in [true, false] {
+                            let inner = if right { Expr::bin(op2, y.clone(), z.clone()) } else { Expr::bin(op2, x.clone(), y.clone()) };
+                            let inner = if neg_in { Expr::not(inner) } else { inner };
+                            let e = if right { Expr::bin(op1, x.clone(), inner) } else { Expr::bin(op1, inner, z.clone()) };
+                            fs.push(if neg_out { Expr::not(e) } else { e });
+                        }
+                    }
+                }
+            }
+        }
+        for op in ops {
+            // (^ and <=> have no counterpart in bnet: the output doubles with every nesting level, so their chains stop at 9)
+            for len in if op == '^' || op == '=' { vec![4usize, 5, 8, 9] } else { vec![4usize, 5, 8, 9, 17, 33] } {
+                let leaf = |i: usize| if i % 4 == 3 { Expr::not(Expr::Var(i % 3)) } else { Expr::Var(i % 3) };
+                let mut r = leaf(len - 1);
+                for i in (0..len - 1).rev() {
+                    r = Expr::bin(op, leaf(i), r);
+                }
+                let mut l = leaf(0);
+                for i in 1..len {
+                    l = Expr::bin(op, l, leaf(i));
+                }
+                fs.push(r);
+                fs.push(l);
+            }
+        }
+        let n_shape = fs.len();
+        for f in fs {
+            // all three variables must be mentioned (declared regulators)
+            let f = Expr::bin('|', f, Expr::bin('&', Expr::Var(0), Expr::bin('&', Expr::Var(1), Expr::bin('&', Expr::Var(2), Expr::Const(false)))));
+            arg_specs.push(NetSpec { vars: vars.clone(), regs: regs.clone(), funcs: vec![Some(f), Some(Expr::Var(1)), Some(Expr::Var(2))] });
+        }
+        rep.set("operator_shape_networks", json!(n_shape));
+    }
     let arg_specs: Vec<NetSpec> = arg_specs.into_iter().filter(|s| s.well_formed() && s.param_bits() <= 14).collect();
     rep.set("argument_list_networks", json!(arg_specs.len()));
     specs.extend(arg_specs);
@@ -416,7 +468,7 @@ pub fn run(tier: &str) -> Result<Report, String> {
     rep.set("networks_accepted_by_the_library", json!(accepted));
     rep.sample(json!({"aeon": specs[specs.len() / 2].to_aeon()}));
     rep.sample(json!({"aeon": "a -?? b\nb -?? b\n$b: f(a) | h\n", "oracle": "as the fresh inputs range over all values, b's output function must range over exactly the 2 * 4 instantiations of f(a) | h"}));
-    rep.rule = "every network with 1..3 variables a,b,c whose variables each take one item of a menu (no regulator/no function; constants; zero-arity h; implicit function over 1, 2 (3) regulators; !x, x, x^y, x|!y; f(x); f(x)|h; g(x)&!f(x); k(x,y); k(y,x); f(x)&g(y); f(x)|f(y); k(x,y)&!k(y,x); f(!x); f(x)&f(!x); k(!x,y)|k(x,y); f(x)^(f(x)&h); f(y)=>(x&h); ...; unconstrained and, for n<=2, constrained regulations; symbols shared between variables) that is well formed and accepted by the library, plus a name-clash sub-family (a variable named like a generated input) and an argument-list sub-family (a symbol of arity 2 / 3 applied to every argument list over the variables, repetitions included, alone and in every ordered pair m(args1) & !m(args2)) an expression-argument sub-family (a symbol applied to zero-arity parameters, constants, compound terms and to itself, alone and next to a second application) and a literal sub-family (true / false as left / right operand of every binary operator next to a variable, a negated variable and terms with an uninterpreted function). The convert-aeon-to-bnet binary built from the working tree is run on the aeon text; its output is re-loaded as bnet; for every target the set of truth tables over the original variables under all valuations of the fresh inputs must equal the set of truth tables of all instantiations of the input function (constraints dropped); targets = variables with a regulator or function; fresh inputs are no targets. distinct_nontrivial = networks accepted by the library".into();
+    rep.rule = "every network with 1..3 variables a,b,c whose variables each take one item of a menu (no regulator/no function; constants; zero-arity h; implicit function over 1, 2 (3) regulators; !x, x, x^y, x|!y; f(x); f(x)|h; g(x)&!f(x); k(x,y); k(y,x); f(x)&g(y); f(x)|f(y); k(x,y)&!k(y,x); f(!x); f(x)&f(!x); k(!x,y)|k(x,y); f(x)^(f(x)&h); f(y)=>(x&h); ...; unconstrained and, for n<=2, constrained regulations; symbols shared between variables) that is well formed and accepted by the library, plus a name-clash sub-family (a variable named like a generated input) and an argument-list sub-family (a symbol of arity 2 / 3 applied to every argument list over the variables, repetitions included, alone and in every ordered pair m(args1) & !m(args2)) an expression-argument sub-family (a symbol applied to zero-arity parameters, constants, compound terms and to itself, alone and next to a second application) an operator-shape sub-family (every ordered pair of binary operators nested to the right and to the left, negations outside / inside, plain and uninterpreted leaves; same-operator chains of 4..33 operands (^ and <=>: 4..9, their bnet rendering doubles per level) in both nestings) and a literal sub-family (true / false as left / right operand of every binary operator next to a variable, a negated variable and terms with an uninterpreted function). The convert-aeon-to-bnet binary built from the working tree is run on the aeon text; its output is re-loaded as bnet; for every target the set of truth tables over the original variables under all valuations of the fresh inputs must equal the set of truth tables of all instantiations of the input function (constraints dropped); targets = variables with a regulator or function; fresh inputs are no targets. distinct_nontrivial = networks accepted by the library".into();
     rep.assumptions.push("biodivine-lib-param-bn's bnet parser is trusted for reading the converter's output; truth tables are evaluated by the harness's own evaluator".into());
     Ok(rep)
 }
